@@ -37,7 +37,9 @@ def hostnames(rng):
 
 
 V4 = ['0.0.0.0', '255.255.255.255', '127.0.0.1', '10.0.0.255', '1.2.3.4']
-V6 = ['::', '::1', 'ffff:ffff:ffff:ffff:ffff:ffff:ffff:ffff', '2001:db8::1', 'fe80::dead:beef', '::ffff:1.2.3.4']
+V6 = ['::', '::1', 'ffff:ffff:ffff:ffff:ffff:ffff:ffff:ffff', '2001:db8::1', 'fe80::dead:beef', '::ffff:1.2.3.4',
+      # the same literals as people write them: upper / mixed case hex digits, leading zeros, fully expanded
+      '2001:DB8::1', '::FFFF:1.2.3.4', 'FE80::DEAD:BEEF', 'fE80::aB', '2001:0db8:0000:0000:0000:0000:0000:0001', '0:0:0:0:0:0:0:1']
 
 
 OTHER_SELECTIONS = ['0502', '0501', '05ff', '0580', '0400', '0000', '05', '']
